@@ -86,8 +86,9 @@ def exc_brief(exc):
 class Ctx:
     """Per-case context handed to run_case."""
 
-    def __init__(self, prop, tier="quick", guards=(), want_trace=True):
+    def __init__(self, prop, tier="quick", guards=(), want_trace=True, careful=False):
         self.prop = prop
+        self.careful = careful  # replay / shrinking: drivers use their deterministic (slower) watchdogs
         self.tier = tier
         self.guards = frozenset(guards)
         self.features = Counter()
@@ -161,9 +162,9 @@ class Ctx:
         self._tmpdirs = []
 
 
-def run_one(mod, case, tier="quick", guards=(), want_trace=True):
+def run_one(mod, case, tier="quick", guards=(), want_trace=True, careful=False):
     """Run one case. Returns (ctx, failure) where failure is None or (oracle, msg)."""
-    ctx = Ctx(mod.ID, tier, guards, want_trace)
+    ctx = Ctx(mod.ID, tier, guards, want_trace, careful)
     failure = None
     cwd = os.getcwd()
     try:
@@ -304,7 +305,7 @@ def _shard_worker(args):
 def shrink(mod, case, oracle, tier, guards, budget=1500):
     def fails(c):
         try:
-            _, f = run_one(mod, c, tier, guards, want_trace=False)
+            _, f = run_one(mod, c, tier, guards, want_trace=False, careful=True)
         except Exception:  # a shrunk case that breaks the harness is not a reproduction
             return False
         return f is not None and f[0] == oracle
@@ -424,7 +425,7 @@ def run_check(prop_id, tier, seed, replay=None):
     # -- replay mode -----------------------------------------------------------------------
     if replay is not None:
         rp = read_replay(replay)
-        ctx, failure = run_one(mod, rp["case"], tier, guards=())
+        ctx, failure = run_one(mod, rp["case"], tier, guards=(), careful=True)
         if failure is None:
             print(f"REPLAY property={prop_id} file={replay}: passes (no oracle fails)")
             return 0
@@ -441,7 +442,7 @@ def run_check(prop_id, tier, seed, replay=None):
         still = True
         if kf["replay"]:
             rp = read_replay(kf["replay"])
-            _, failure = run_one(mod, rp["case"], tier, guards=())
+            _, failure = run_one(mod, rp["case"], tier, guards=(), careful=True)
             still = failure is not None
         if still:
             guards.add(kf["id"])
@@ -464,7 +465,7 @@ def run_check(prop_id, tier, seed, replay=None):
             if os.path.normpath(rel) in kf_replays:
                 continue
             rp = read_replay(rel)
-            _, failure = run_one(mod, rp["case"], tier, guards)
+            _, failure = run_one(mod, rp["case"], tier, guards, careful=True)
             regress_n += 1
             if failure is not None:
                 violations.append((failure[0], rel, failure[1]))
@@ -498,7 +499,7 @@ def run_check(prop_id, tier, seed, replay=None):
     for oracle in sorted(total.failures):
         case, msg = total.failures[oracle]
         small = shrink(mod, case, oracle, tier, guards)
-        _, f = run_one(mod, small, tier, guards)
+        _, f = run_one(mod, small, tier, guards, careful=True)
         if f is not None:
             msg = f[1]
         rel = write_replay(prop_id, oracle, small, msg)
